@@ -78,8 +78,9 @@ func (c *Ctx) LockReleased(prop string) {
 				if d, ok := i.(*ssa.Defer); ok {
 					if mc, ok := d.Call.Value.(*ssa.MakeClosure); ok {
 						for _, ic := range Calls(mc.Fn.(*ssa.Function), func(x ssa.CallInstruction) bool { return isSync(x, want) }) {
-							_ = ic
-							return true
+							if sameMutex(ic.Common().Args[0], mu) {
+								return true
+							}
 						}
 					}
 				}
